@@ -9,36 +9,79 @@
 //   c01_total record OUT quick|thorough seed SECTION [scratch-dir]
 #include "c06_drive.hpp"
 
-#include <fcppt/args.hpp>
-#include <fcppt/args_char.hpp>
-#include <fcppt/args_from_second.hpp>
-#include <fcppt/args_vector.hpp>
-#include <fcppt/getenv.hpp>
-#include <fcppt/make_cref.hpp>
-#include <fcppt/nonmovable.hpp>
-#include <fcppt/enum/array.hpp>
-#include <fcppt/enum/array_init.hpp>
-#include <fcppt/enum/input.hpp>
-#include <fcppt/io/expect.hpp>
-#include <fcppt/io/extract.hpp>
-#include <fcppt/io/get.hpp>
-#include <fcppt/io/peek.hpp>
-#include <fcppt/optional/copy_value.hpp>
-#include <fcppt/optional/deref.hpp>
-#include <fcppt/optional/from.hpp>
-#include <fcppt/optional/from_pointer.hpp>
-#include <fcppt/optional/make.hpp>
-#include <fcppt/optional/to_exception.hpp>
-#include <fcppt/optional/to_pointer.hpp>
-#include <fcppt/options/default_help_switch.hpp>
-#include <fcppt/options/help_result.hpp>
-#include <fcppt/options/help_text.hpp>
-#include <fcppt/options/parse_help.hpp>
-#include <fcppt/parse/grammar.hpp>
-#include <fcppt/parse/grammar_parse_string.hpp>
-#include <fcppt/time/gmtime.hpp>
-#include <fcppt/variant/match.hpp>
-#include <fcppt/make_ref.hpp>
+// Section groups of this harness.  C01_GROUP = 0 (default): every own section; C01_GROUP = n > 0: only own section
+// group n and its fcppt includes; C01_GROUP < 0: none (a unit of the integer helpers, selected by C06_GROUP).  Used by
+// checks/c01.py when this translation unit does not compile as a whole against the tree under test: the groups that
+// still compile are built, run and judged on their own.
+#ifndef C01_GROUP
+#define C01_GROUP 0
+#endif
+#define C01_ON(n) (C01_GROUP == 0 || C01_GROUP == (n))
+#define C01_G_CONTAINERS 1
+#define C01_G_GRID 2
+#define C01_G_ENUM_STRING 3
+#define C01_G_DYNAMIC 4
+#define C01_G_FROM_RANGE 5
+#define C01_G_EXTRACT 6
+#define C01_G_STREAMS 7
+#define C01_G_RUNTIME_INDEX 8
+#define C01_G_CODECVT 9
+#define C01_G_FILESYSTEM 10
+#define C01_G_OPTIONS 11
+#define C01_G_PARSE 12
+#define C01_G_IO 13
+#define C01_G_ENUM_EXTRACT 14
+#define C01_G_PARSE_HELP 15
+#define C01_G_GRAMMAR 16
+#define C01_G_OPTIONAL 17
+#define C01_G_CONTAINERS2 18
+#define C01_G_ENV_ARGS 19
+#define C01_G_PARSE_STREAM 20
+#if C01_ON(C01_G_CONTAINERS)
+#include <fcppt/container/at_optional.hpp>
+#include <fcppt/container/find_opt.hpp>
+#include <fcppt/container/find_opt_mapped.hpp>
+#include <fcppt/container/maybe_back.hpp>
+#include <fcppt/container/maybe_front.hpp>
+#include <fcppt/container/pop_back.hpp>
+#include <fcppt/container/pop_front.hpp>
+#include <fcppt/optional/object_impl.hpp>
+#include <fcppt/optional/reference.hpp>
+#endif
+#if C01_ON(C01_G_GRID)
+#include <fcppt/container/grid/at_optional.hpp>
+#include <fcppt/container/grid/object.hpp>
+#include <fcppt/math/dim/init.hpp>
+#include <fcppt/math/dim/object_impl.hpp>
+#include <fcppt/math/vector/init.hpp>
+#include <fcppt/math/vector/object_impl.hpp>
+#endif
+#if C01_ON(C01_G_ENUM_STRING)
+#include <fcppt/enum/from_string.hpp>
+#include <fcppt/enum/names.hpp>
+#include <fcppt/enum/to_string_case.hpp>
+#include <fcppt/enum/to_string_impl_fwd.hpp>
+#endif
+#if C01_ON(C01_G_DYNAMIC)
+#include <fcppt/cast/dynamic.hpp>
+#include <fcppt/cast/dynamic_any.hpp>
+#include <fcppt/cast/dynamic_cross.hpp>
+#endif
+#if C01_ON(C01_G_FROM_RANGE)
+#include <fcppt/array/from_range.hpp>
+#include <fcppt/array/object_impl.hpp>
+#endif
+#if C01_ON(C01_G_EXTRACT)
+#include <fcppt/extract_from_string.hpp>
+#endif
+#if C01_ON(C01_G_STREAMS)
+#include <fcppt/io/read_chars.hpp>
+#include <fcppt/io/stream_to_string.hpp>
+#endif
+#if C01_ON(C01_G_RUNTIME_INDEX)
+#include <fcppt/runtime_index.hpp>
+#endif
+#if C01_ON(C01_G_CODECVT)
 #include <fcppt/narrow.hpp>
 #include <fcppt/narrow_locale.hpp>
 #include <fcppt/from_std_string.hpp>
@@ -50,34 +93,10 @@
 #include <fcppt/to_std_wstring.hpp>
 #include <fcppt/to_std_wstring_locale.hpp>
 #include <fcppt/widen_locale.hpp>
-#include <fcppt/reference_impl.hpp>
-#include <fcppt/runtime_index.hpp>
-#include <fcppt/text.hpp>
 #include <fcppt/widen.hpp>
-#include <fcppt/extract_from_string.hpp>
-#include <fcppt/array/from_range.hpp>
-#include <fcppt/array/object_impl.hpp>
-#include <fcppt/cast/dynamic.hpp>
-#include <fcppt/cast/dynamic_any.hpp>
-#include <fcppt/cast/dynamic_cross.hpp>
-#include <fcppt/container/at_optional.hpp>
-#include <fcppt/container/find_opt.hpp>
-#include <fcppt/container/find_opt_mapped.hpp>
-#include <fcppt/container/maybe_back.hpp>
-#include <fcppt/container/maybe_front.hpp>
-#include <fcppt/container/pop_back.hpp>
-#include <fcppt/container/pop_front.hpp>
-#include <fcppt/container/grid/at_optional.hpp>
-#include <fcppt/container/grid/object.hpp>
-#include <fcppt/math/dim/init.hpp>
-#include <fcppt/math/dim/object_impl.hpp>
-#include <fcppt/math/vector/init.hpp>
-#include <fcppt/math/vector/object_impl.hpp>
-#include <fcppt/either/match.hpp>
-#include <fcppt/enum/from_string.hpp>
-#include <fcppt/enum/names.hpp>
-#include <fcppt/enum/to_string_case.hpp>
-#include <fcppt/enum/to_string_impl_fwd.hpp>
+#include <fcppt/text.hpp>
+#endif
+#if C01_ON(C01_G_FILESYSTEM)
 #include <fcppt/filesystem/extension.hpp>
 #include <fcppt/filesystem/file_size.hpp>
 #include <fcppt/filesystem/normalize.hpp>
@@ -86,10 +105,13 @@
 #include <fcppt/filesystem/replace_extension.hpp>
 #include <fcppt/filesystem/stem.hpp>
 #include <fcppt/filesystem/strip_prefix.hpp>
-#include <fcppt/io/read_chars.hpp>
-#include <fcppt/io/stream_to_string.hpp>
-#include <fcppt/optional/object_impl.hpp>
-#include <fcppt/optional/reference.hpp>
+#include <fcppt/text.hpp>
+#endif
+#if C01_ON(C01_G_OPTIONS)
+#include <fcppt/args_vector.hpp>
+#include <fcppt/make_cref.hpp>
+#include <fcppt/text.hpp>
+#include <fcppt/either/match.hpp>
 #include <fcppt/options/argument.hpp>
 #include <fcppt/options/apply.hpp>
 #include <fcppt/options/flag.hpp>
@@ -105,6 +127,10 @@
 #include <fcppt/options/optional_short_name.hpp>
 #include <fcppt/options/parse.hpp>
 #include <fcppt/options/short_name.hpp>
+#include <fcppt/record/make_label.hpp>
+#endif
+#if C01_ON(C01_G_PARSE)
+#include <fcppt/either/match.hpp>
 #include <fcppt/parse/char_set.hpp>
 #include <fcppt/parse/int.hpp>
 #include <fcppt/parse/literal.hpp>
@@ -118,7 +144,98 @@
 #include <fcppt/parse/operators/sequence.hpp>
 #include <fcppt/parse/skipper/epsilon.hpp>
 #include <fcppt/parse/skipper/space.hpp>
+#endif
+#if C01_ON(C01_G_IO)
+#include <fcppt/io/expect.hpp>
+#include <fcppt/io/extract.hpp>
+#include <fcppt/io/get.hpp>
+#include <fcppt/io/peek.hpp>
+#endif
+#if C01_ON(C01_G_ENUM_EXTRACT)
+#include <fcppt/enum/array.hpp>
+#include <fcppt/enum/array_init.hpp>
+#include <fcppt/enum/input.hpp>
+#include <fcppt/enum/names.hpp>
+#include <fcppt/enum/to_string_case.hpp>
+#include <fcppt/enum/to_string_impl_fwd.hpp>
+#include <fcppt/extract_from_string.hpp>
+#endif
+#if C01_ON(C01_G_PARSE_HELP)
+#include <fcppt/args_vector.hpp>
+#include <fcppt/make_cref.hpp>
+#include <fcppt/text.hpp>
+#include <fcppt/variant/match.hpp>
+#include <fcppt/options/argument.hpp>
+#include <fcppt/options/apply.hpp>
+#include <fcppt/options/flag.hpp>
+#include <fcppt/options/long_name.hpp>
+#include <fcppt/options/make_active_value.hpp>
+#include <fcppt/options/make_inactive_value.hpp>
+#include <fcppt/options/no_default_value.hpp>
+#include <fcppt/options/option.hpp>
+#include <fcppt/options/optional_help_text.hpp>
+#include <fcppt/options/optional_short_name.hpp>
+#include <fcppt/options/parse.hpp>
+#include <fcppt/options/short_name.hpp>
+#include <fcppt/options/default_help_switch.hpp>
+#include <fcppt/options/help_result.hpp>
+#include <fcppt/options/help_text.hpp>
+#include <fcppt/options/parse_help.hpp>
 #include <fcppt/record/make_label.hpp>
+#endif
+#if C01_ON(C01_G_GRAMMAR)
+#include <fcppt/make_cref.hpp>
+#include <fcppt/nonmovable.hpp>
+#include <fcppt/either/match.hpp>
+#include <fcppt/parse/grammar.hpp>
+#include <fcppt/parse/grammar_parse_string.hpp>
+#include <fcppt/parse/int.hpp>
+#include <fcppt/parse/operators/repetition.hpp>
+#include <fcppt/parse/skipper/space.hpp>
+#endif
+#if C01_ON(C01_G_OPTIONAL)
+#include <fcppt/make_ref.hpp>
+#include <fcppt/reference_impl.hpp>
+#include <fcppt/optional/copy_value.hpp>
+#include <fcppt/optional/deref.hpp>
+#include <fcppt/optional/from.hpp>
+#include <fcppt/optional/from_pointer.hpp>
+#include <fcppt/optional/make.hpp>
+#include <fcppt/optional/object_impl.hpp>
+#include <fcppt/optional/reference.hpp>
+#include <fcppt/optional/to_exception.hpp>
+#include <fcppt/optional/to_pointer.hpp>
+#endif
+#if C01_ON(C01_G_CONTAINERS2)
+#include <fcppt/container/at_optional.hpp>
+#include <fcppt/container/find_opt.hpp>
+#include <fcppt/container/find_opt_mapped.hpp>
+#include <fcppt/container/maybe_back.hpp>
+#include <fcppt/container/maybe_front.hpp>
+#include <fcppt/container/pop_back.hpp>
+#include <fcppt/container/pop_front.hpp>
+#include <fcppt/optional/object_impl.hpp>
+#include <fcppt/optional/reference.hpp>
+#endif
+#if C01_ON(C01_G_PARSE_STREAM)
+#include <fcppt/either/match.hpp>
+#include <fcppt/parse/int.hpp>
+#include <fcppt/parse/literal.hpp>
+#include <fcppt/parse/phrase_parse_stream.hpp>
+#include <fcppt/parse/operators/optional.hpp>
+#include <fcppt/parse/operators/repetition.hpp>
+#include <fcppt/parse/operators/sequence.hpp>
+#include <fcppt/parse/skipper/epsilon.hpp>
+#include <fcppt/parse/skipper/space.hpp>
+#endif
+#if C01_ON(C01_G_ENV_ARGS)
+#include <fcppt/args.hpp>
+#include <fcppt/args_char.hpp>
+#include <fcppt/args_from_second.hpp>
+#include <fcppt/args_vector.hpp>
+#include <fcppt/getenv.hpp>
+#include <fcppt/time/gmtime.hpp>
+#endif
 
 #include <array>
 #include <clocale>
@@ -199,6 +316,7 @@ std::vector<std::vector<int>> small_sequences()
   }
   return r;
 }
+#if C01_ON(C01_G_CONTAINERS)
 template <typename C> void at_optional_kind(char const *kind)
 {
   for (auto const &xs : small_sequences())
@@ -294,7 +412,10 @@ void containers()
   find_all();
 }
 
+#endif
+
 // ------------------------------------------------------------------ grid::at_optional
+#if C01_ON(C01_G_GRID)
 template <std::size_t N> void grid_n()
 {
   using grid = fcppt::container::grid::object<std::vector<unsigned long>, N>;
@@ -346,9 +467,12 @@ template <std::size_t N> void grid_n()
   }
 }
 
+#endif
+
 // ------------------------------------------------------------------ enum from_string
 enum class colour { red, green, blue_green, fcppt_maximum = blue_green };
 }
+#if C01_ON(C01_G_ENUM_STRING) || C01_ON(C01_G_ENUM_EXTRACT)
 namespace fcppt::enum_
 {
 template <> struct to_string_impl<colour>
@@ -365,8 +489,10 @@ template <> struct to_string_impl<colour>
   }
 };
 }
+#endif
 namespace
 {
+#if C01_ON(C01_G_ENUM_STRING)
 void enum_strings()
 {
   std::vector<std::string> names;
@@ -390,6 +516,8 @@ void enum_strings()
     });
 }
 
+#endif
+
 // ------------------------------------------------------------------ cast::dynamic
 struct Base { virtual ~Base() = default; int b = 1; };
 struct D1 : Base { int d1 = 2; };
@@ -398,6 +526,7 @@ struct D11 : D1 { int d11 = 4; };
 struct Other { virtual ~Other() = default; int o = 5; };
 struct M : D1, Other { int m = 6; };
 
+#if C01_ON(C01_G_DYNAMIC)
 template <typename Target, typename Src> void dyn_one(char const *fn, Src &obj, char const *dyn, char const *target, int which)
 {
   total_call(fname(fn) + ",\"dyn\":\"" + dyn + "\",\"target\":\"" + target + "\"", [&obj, which] {
@@ -453,7 +582,10 @@ void dynamic_casts()
   }
 }
 
+#endif
+
 // ------------------------------------------------------------------ array::from_range
+#if C01_ON(C01_G_FROM_RANGE)
 template <std::size_t N> void from_range_n()
 {
   for (auto const &xs : small_sequences())
@@ -468,6 +600,8 @@ template <std::size_t N> void from_range_n()
     });
   }
 }
+
+#endif
 
 // ------------------------------------------------------------------ extract_from_string
 std::vector<std::string> token_strings(std::string const &alphabet, std::size_t const maxlen, std::vector<std::string> extra)
@@ -485,6 +619,7 @@ std::vector<std::string> token_strings(std::string const &alphabet, std::size_t 
   r.insert(r.end(), extra.begin(), extra.end());
   return r;
 }
+#if C01_ON(C01_G_EXTRACT)
 void extract(c06::config const &cfg)
 {
   std::vector<std::string> const extra{"2147483647", "2147483648", "-2147483648", "-2147483649", "4294967295", "4294967296", "-4294967295",
@@ -508,7 +643,10 @@ void extract(c06::config const &cfg)
     });
 }
 
+#endif
+
 // ------------------------------------------------------------------ streams
+#if C01_ON(C01_G_STREAMS)
 void streams()
 {
   std::string const text = "ab\ncd e";
@@ -551,7 +689,10 @@ void streams()
       }
 }
 
+#endif
+
 // ------------------------------------------------------------------ runtime_index
+#if C01_ON(C01_G_RUNTIME_INDEX)
 template <typename Index, Index Max> void runtime_index_n(char const *it)
 {
   std::vector<Index> idx{0, 1, 2, 3, 4, static_cast<Index>(Max), static_cast<Index>(Max + 1), std::numeric_limits<Index>::max(),
@@ -566,6 +707,8 @@ template <typename Index, Index Max> void runtime_index_n(char const *it)
                });
 }
 
+#endif
+
 // ------------------------------------------------------------------ narrow / widen (LC_ALL=C.utf8)
 // The string-conversion group.  In this build (FCPPT_NARROW_STRING) fcppt::string is std::string:
 //   wide -> narrow through impl::codecvt: narrow, narrow_locale, from_std_wstring(_locale)   (optional)
@@ -579,6 +722,7 @@ struct glyph
 };
 constexpr glyph glyphs[] = {{L'a', "a"}, {static_cast<wchar_t>(0xE9), "\xC3\xA9"}, {static_cast<wchar_t>(0x65E5), "\xE6\x97\xA5"},
                             {static_cast<wchar_t>(0x1F600), "\xF0\x9F\x98\x80"}};
+#if C01_ON(C01_G_CODECVT)
 void narrow_all(std::wstring const &w, bool const wrappers)
 {
   std::locale const loc("C.utf8");
@@ -670,7 +814,10 @@ void codecvt(c06::config const &cfg)
   }
 }
 
+#endif
+
 // ------------------------------------------------------------------ filesystem
+#if C01_ON(C01_G_FILESYSTEM)
 void filesystem_fns(std::string const &scratch)
 {
   namespace fs = std::filesystem;
@@ -727,7 +874,7 @@ void filesystem_fns(std::string const &scratch)
     total_call(base + ",\"op\":\"remove_extension\"", [&p] { return value(vj::cps(fcppt::filesystem::remove_extension(p).string())); });
     total_call(base + ",\"op\":\"replace_extension\"", [&p] { return value(vj::cps(fcppt::filesystem::replace_extension(p, FCPPT_TEXT("txt")).string())); });
     total_call(base + ",\"op\":\"normalize\"", [&p] { return value(vj::cps(fcppt::filesystem::normalize(p).string())); });
-    total_call(base + ",\"op\":\"num_subpaths\"", [&p] { return value("[" + std::to_string(fcppt::filesystem::num_subpaths(p)) + "]"); });
+    total_call(base + ",\"op\":\"num_subpaths\"", [&p] { return value("[" + std::to_string(sat(static_cast<unsigned long long>(fcppt::filesystem::num_subpaths(p)))) + "]"); });
     // strip_prefix is only defined for real prefixes: every leading part of the path itself
     fs::path prefix;
     for (auto const &part : p)
@@ -739,7 +886,10 @@ void filesystem_fns(std::string const &scratch)
   fs::remove_all(dir);
 }
 
+#endif
+
 // ------------------------------------------------------------------ options::parse
+#if C01_ON(C01_G_OPTIONS) || C01_ON(C01_G_PARSE_HELP)
 FCPPT_RECORD_MAKE_LABEL(arg_label);
 FCPPT_RECORD_MAKE_LABEL(flag_label);
 FCPPT_RECORD_MAKE_LABEL(opt_label);
@@ -747,6 +897,9 @@ FCPPT_RECORD_MAKE_LABEL(arg2_label);
 FCPPT_RECORD_MAKE_LABEL(opt2_label);
 FCPPT_RECORD_MAKE_LABEL(cmd_foo_label);
 FCPPT_RECORD_MAKE_LABEL(cmd_bar_label);
+#endif
+
+#if C01_ON(C01_G_OPTIONS)
 void options_parse(c06::config const &cfg)
 {
   namespace o = fcppt::options;
@@ -816,7 +969,10 @@ void options_parse(c06::config const &cfg)
   }
 }
 
+#endif
+
 // ------------------------------------------------------------------ parse::parse_string / phrase_parse_string
+#if C01_ON(C01_G_PARSE)
 template <typename Parser, typename Enc>
 void parse_one(char const *g, Parser const &parser, std::vector<std::string> const &inputs, Enc const &enc)
 {
@@ -848,10 +1004,15 @@ void parse_strings(c06::config const &cfg)
   parse_one("alt", alt, inputs, [](auto const &) { return std::string("[]"); });
 }
 
+#endif
+
 // ================================================================== extension round
 // ------------------------------------------------------------------ io::get / peek / extract / expect
+#if C01_ON(C01_G_ENUM_EXTRACT)
 std::istream &operator>>(std::istream &st, colour &c) { return fcppt::enum_::input(st, c); }   // as enum/input.hpp suggests
+#endif
 
+#if C01_ON(C01_G_IO)
 void io_fns(c06::config const &cfg)
 {
   std::string const text = "ab\ncd e";
@@ -906,7 +1067,10 @@ void io_fns(c06::config const &cfg)
   }
 }
 
+#endif
+
 // ------------------------------------------------------------------ extract_from_string of an enum (operator>> through enum_::input)
+#if C01_ON(C01_G_ENUM_EXTRACT)
 void enum_extract()
 {
   auto const name_array{fcppt::enum_::names<colour>()};
@@ -929,7 +1093,10 @@ void enum_extract()
     total_call(fname("enum_array_at") + ",\"i\":" + std::to_string(i), [&arr, i] { return value("[" + std::to_string(arr[static_cast<colour>(i)]) + "]"); });
 }
 
+#endif
+
 // ------------------------------------------------------------------ options::parse_help
+#if C01_ON(C01_G_PARSE_HELP)
 void parse_help_fns(c06::config const &cfg)
 {
   namespace o = fcppt::options;
@@ -974,7 +1141,10 @@ void parse_help_fns(c06::config const &cfg)
   }
 }
 
+#endif
+
 // ------------------------------------------------------------------ parse::grammar_parse_string
+#if C01_ON(C01_G_GRAMMAR)
 using space_skipper = decltype(fcppt::parse::skipper::space());
 class int_grammar : public fcppt::parse::grammar<int, char, space_skipper>
 {
@@ -1016,7 +1186,10 @@ void grammar_fns(c06::config const &cfg)
   }
 }
 
+#endif
+
 // ------------------------------------------------------------------ optional accessors that are documented total
+#if C01_ON(C01_G_OPTIONAL)
 void optional_fns()
 {
   for (int has = 0; has <= 1; ++has)
@@ -1051,7 +1224,10 @@ void optional_fns()
     }
 }
 
+#endif
+
 // ------------------------------------------------------------------ more container kinds
+#if C01_ON(C01_G_CONTAINERS2)
 void containers2()
 {
   for (auto const &xs : small_sequences())
@@ -1142,7 +1318,10 @@ void containers2()
   }
 }
 
+#endif
+
 // ------------------------------------------------------------------ getenv, args, args_from_second, time::gmtime
+#if C01_ON(C01_G_ENV_ARGS)
 void env_args()
 {
   ::setenv("VERIF_C01_SET", "some value", 1);
@@ -1178,18 +1357,139 @@ void env_args()
     });
 }
 
-std::vector<std::string> own_sections()
+#endif
+
+#if C01_ON(C01_G_PARSE_STREAM)
+// ------------------------------------------------------------------ parse::phrase_parse_stream on streams that are not good (round 3)
+// "This function also catches all exceptions produced by _input and returns them as an error." (parse/phrase_parse.hpp):
+// a stream whose badbit is set, and a stream buffer that can neither tell nor seek (like a pipe), make fcppt's stream
+// wrapper throw; the caller must see an either failure, never the exception.
+class no_seek_buf : public std::streambuf
 {
-  return {"containers", "grid", "enum_string", "dynamic", "from_range", "extract", "streams", "runtime_index", "codecvt", "filesystem", "options", "parse",
-          "io", "enum_extract", "parse_help", "grammar", "optional", "containers2", "env_args"};
+public:
+  explicit no_seek_buf(std::string _s) : s_(std::move(_s)) { this->setg(s_.data(), s_.data(), s_.data() + s_.size()); }
+private:
+  std::string s_;
+};
+template <typename Parser, typename Skipper>
+void parse_stream_one(char const *g, char const *sk, Parser const &parser, Skipper const &skipper)
+{
+  std::vector<std::string> const contents{"", "1", "12,3", "a", "1,a", "-", " 7", "7 ", "99999999999", "1,2,3,4,5,6"};
+  for (auto const &content : contents)
+    for (int st = 0; st < 6; ++st)
+      for (int seekable = 0; seekable <= 1; ++seekable)
+      {
+        bool const eofbit = st == 1 || st == 4, failbit = st == 2 || st == 4, badbit = st == 3 || st == 5;
+        std::ios_base::iostate state = std::ios_base::goodbit;
+        if (eofbit) state |= std::ios_base::eofbit;
+        if (failbit) state |= std::ios_base::failbit;
+        if (badbit) state |= std::ios_base::badbit;
+        std::istringstream iss(content);
+        no_seek_buf buf(content);
+        std::istream plain(&buf);
+        std::istream &is = seekable ? static_cast<std::istream &>(iss) : plain;
+        is.unsetf(std::ios_base::skipws);
+        is.clear(state);
+        total_call(fname("parse_stream") + ",\"g\":\"" + g + "\",\"sk\":\"" + sk + "\",\"s\":" + vj::cps(content) + ",\"seekable\":" + (seekable ? "true" : "false") +
+                       ",\"eofbit\":" + (eofbit ? "true" : "false") + ",\"failbit\":" + (failbit ? "true" : "false") + ",\"badbit\":" + (badbit ? "true" : "false"),
+                   [&parser, &skipper, &is] {
+                     return fcppt::either::match(fcppt::parse::phrase_parse_stream(parser, is, skipper), [](auto const &) { return failure(); },
+                                                 [](auto const &) { return value("[]"); });
+                   });
+      }
 }
+void parse_streams()
+{
+  namespace p = fcppt::parse;
+  auto const rep{*(p::int_<int>{} >> -p::literal{','})};
+  parse_stream_one("int", "none", p::int_<int>{}, p::skipper::epsilon());
+  parse_stream_one("int", "space", p::int_<int>{}, p::skipper::space());
+  parse_stream_one("rep_int_comma", "none", rep, p::skipper::epsilon());
+  parse_stream_one("rep_int_comma", "space", rep, p::skipper::space());
+}
+#endif
+
+struct own_entry
+{
+  char const *name;
+  void (*run)(c06::config const &, std::string const &);
+};
+#define C01_SEC(name, ...) own_entry{name, [](c06::config const &cfg, std::string const &scratch) { (void)cfg; (void)scratch; __VA_ARGS__ }},
+std::vector<own_entry> const &own_table()
+{
+  static std::vector<own_entry> const t{
+#if C01_ON(C01_G_CONTAINERS)
+      C01_SEC("containers", containers();)
+#endif
+#if C01_ON(C01_G_GRID)
+      C01_SEC("grid", grid_n<1>(); grid_n<2>(); grid_n<3>();)
+#endif
+#if C01_ON(C01_G_ENUM_STRING)
+      C01_SEC("enum_string", enum_strings();)
+#endif
+#if C01_ON(C01_G_DYNAMIC)
+      C01_SEC("dynamic", dynamic_casts();)
+#endif
+#if C01_ON(C01_G_FROM_RANGE)
+      C01_SEC("from_range", from_range_n<0>(); from_range_n<1>(); from_range_n<2>(); from_range_n<3>();)
+#endif
+#if C01_ON(C01_G_EXTRACT)
+      C01_SEC("extract", extract(cfg);)
+#endif
+#if C01_ON(C01_G_STREAMS)
+      C01_SEC("streams", streams();)
+#endif
+#if C01_ON(C01_G_RUNTIME_INDEX)
+      C01_SEC("runtime_index", runtime_index_n<std::uint8_t, 1>("u8"); runtime_index_n<std::uint8_t, 3>("u8"); runtime_index_n<unsigned, 1>("u32");
+              runtime_index_n<unsigned, 3>("u32"); runtime_index_n<unsigned, 4>("u32"); runtime_index_n<std::uint64_t, 3>("u64");)
+#endif
+#if C01_ON(C01_G_CODECVT)
+      C01_SEC("codecvt", codecvt(cfg);)
+#endif
+#if C01_ON(C01_G_FILESYSTEM)
+      C01_SEC("filesystem", filesystem_fns(scratch);)
+#endif
+#if C01_ON(C01_G_OPTIONS)
+      C01_SEC("options", options_parse(cfg);)
+#endif
+#if C01_ON(C01_G_PARSE)
+      C01_SEC("parse", parse_strings(cfg);)
+#endif
+#if C01_ON(C01_G_IO)
+      C01_SEC("io", io_fns(cfg);)
+#endif
+#if C01_ON(C01_G_ENUM_EXTRACT)
+      C01_SEC("enum_extract", enum_extract();)
+#endif
+#if C01_ON(C01_G_PARSE_HELP)
+      C01_SEC("parse_help", parse_help_fns(cfg);)
+#endif
+#if C01_ON(C01_G_GRAMMAR)
+      C01_SEC("grammar", grammar_fns(cfg);)
+#endif
+#if C01_ON(C01_G_OPTIONAL)
+      C01_SEC("optional", optional_fns();)
+#endif
+#if C01_ON(C01_G_CONTAINERS2)
+      C01_SEC("containers2", containers2();)
+#endif
+#if C01_ON(C01_G_ENV_ARGS)
+      C01_SEC("env_args", env_args();)
+#endif
+#if C01_ON(C01_G_PARSE_STREAM)
+      C01_SEC("parse_stream", parse_streams();)
+#endif
+  };
+  return t;
+}
+#undef C01_SEC
 }
 
 int main(int argc, char **argv)
 {
   if (argc >= 2 && std::strcmp(argv[1], "sections") == 0)
   {
-    for (auto const &s : own_sections()) std::printf("%s\n", s.c_str());
+    for (auto const &e : own_table()) std::printf("%s\n", e.name);
     for (auto const &s : c06::sections())
       if (s.find("_grid") == std::string::npos) std::printf("math:%s\n", s.c_str());
     return 0;
@@ -1207,34 +1507,17 @@ int main(int argc, char **argv)
   std::setlocale(LC_ALL, "");
   vj::open(argv[2]);
   c06::install();
+  bool done = false;
   if (sec.rfind("math:", 0) == 0)
-  {
-    if (!c06::run_section(sec.substr(5), cfg)) return 3;
-  }
-  else if (sec == "containers") containers();
-  else if (sec == "grid") { grid_n<1>(); grid_n<2>(); grid_n<3>(); }
-  else if (sec == "enum_string") enum_strings();
-  else if (sec == "dynamic") dynamic_casts();
-  else if (sec == "from_range") { from_range_n<0>(); from_range_n<1>(); from_range_n<2>(); from_range_n<3>(); }
-  else if (sec == "extract") extract(cfg);
-  else if (sec == "streams") streams();
-  else if (sec == "runtime_index")
-  {
-    runtime_index_n<std::uint8_t, 1>("u8"); runtime_index_n<std::uint8_t, 3>("u8"); runtime_index_n<unsigned, 1>("u32"); runtime_index_n<unsigned, 3>("u32");
-    runtime_index_n<unsigned, 4>("u32"); runtime_index_n<std::uint64_t, 3>("u64");
-  }
-  else if (sec == "codecvt") codecvt(cfg);
-  else if (sec == "filesystem") filesystem_fns(scratch);
-  else if (sec == "options") options_parse(cfg);
-  else if (sec == "parse") parse_strings(cfg);
-  else if (sec == "io") io_fns(cfg);
-  else if (sec == "enum_extract") enum_extract();
-  else if (sec == "parse_help") parse_help_fns(cfg);
-  else if (sec == "grammar") grammar_fns(cfg);
-  else if (sec == "optional") optional_fns();
-  else if (sec == "containers2") containers2();
-  else if (sec == "env_args") env_args();
+    done = c06::run_section(sec.substr(5), cfg);
   else
+    for (auto const &e : own_table())
+      if (sec == e.name)
+      {
+        e.run(cfg, scratch);
+        done = true;
+      }
+  if (!done)
   {
     std::fprintf(stderr, "unknown section %s\n", sec.c_str());
     return 3;
